@@ -49,7 +49,10 @@ def decodeUtf8 (bytes : List Nat) : Option (List Nat) :=
   | some s => some (s.toList.map Char.toNat)
   | none => none
 
+/-- fuel for the model's structural recursions: the assembler model spends one unit per fed item and per nesting
+level, so a bound above the source length can never be the reason for an answer -/
 def asmFuel : Nat := 100000
+def asmFuelFor (n : Nat) : Nat := asmFuel + 2 * n
 
 /-- `asm <hex source>`: without a file system every directive fails to resolve.
 `useSpec`: run the reference semantics (`Spec.assembleScope`) instead of the model. -/
@@ -72,8 +75,8 @@ def cmdAsmWith (useSpec : Bool) (args : List String) : String :=
           match raws nodes with
           | none => "err Io canonicalizing_include/import"
           | some rs =>
-            let r := if useSpec then Spec.assembleScope (fun k => k) asmFuel 0 (RawOps.ofList rs)
-                     else assemble (fun k => k) asmFuel {} (RawOps.ofList rs)
+            let r := if useSpec then Spec.assembleScope (fun k => k) (asmFuelFor text.length) 0 (RawOps.ofList rs)
+                     else assemble (fun k => k) (asmFuelFor text.length) {} (RawOps.ofList rs)
             match r with
             | .ok (bytes, _) => s!"ok {hx bytes}"
             | .error e => showAsmErr e
